@@ -414,6 +414,17 @@ func runOp(r *lib.Run, op string) {
 	}
 	fromP, toP := filepath.Join(dir, from), filepath.Join(dir, to)
 	before := snapshot(fromP)
+	// everything else in the directory (other trees a pre-existing destination may be hard-linked into)
+	bystanders := func() string {
+		var parts []string
+		for _, k := range kids {
+			if k.name != from && k.name != to {
+				parts = append(parts, k.name+"="+snapshot(filepath.Join(dir, k.name)))
+			}
+		}
+		return strings.Join(parts, ";")
+	}
+	othersBefore := bystanders()
 	_, _, existedErr := statKey(toP)
 	fresh := existedErr != nil
 
@@ -439,6 +450,12 @@ func runOp(r *lib.Run, op string) {
 	// direct oracle
 	if before != after {
 		r.OracleFail("source-modified", op, "before="+before+" after="+after)
+	}
+	if oa := bystanders(); oa != othersBefore {
+		r.OracleFail("bystander-tree-modified", op, "a tree that is neither source nor destination changed: before="+othersBefore+" after="+oa)
+		if cerr == nil && !strings.HasSuffix(out, "CHANGED") {
+			out += " others-CHANGED"
+		}
 	}
 	nontrivial := false
 	if fresh {
@@ -650,6 +667,24 @@ func exhaustive(r *lib.Run) {
 	}
 }
 
+// otherFsTemp returns a fresh directory on a file system other than the one holding `here` ("" if none is available).
+func otherFsTemp(here string) string {
+	k0, _, err := statKey(here)
+	if err != nil {
+		return ""
+	}
+	for _, base := range []string{"/dev/shm", "/run/shm", "/tmp", "/var/tmp"} {
+		k, fi, err := statKey(base)
+		if err != nil || !fi.IsDir() || k.dev == k0.dev {
+			continue
+		}
+		if d, err := os.MkdirTemp(base, "verif-c34-"); err == nil {
+			return d
+		}
+	}
+	return ""
+}
+
 func main() {
 	r := lib.Start()
 	defer r.Finish()
@@ -664,6 +699,13 @@ func main() {
 		panic(err)
 	}
 	defer os.RemoveAll(scratch)
+	// A temp dir on ANOTHER file system: fs.WriteFile stages next to the destination today and ignores it; should it
+	// ever stage in $TMPDIR, rename(2) fails with EXDEV here and the in-place fallback of renameFile becomes reachable.
+	if td := otherFsTemp(scratch); td != "" {
+		os.Setenv("TMPDIR", td)
+		defer os.RemoveAll(td)
+		r.Count("env:TMPDIR-on-another-filesystem")
+	}
 	if ops := r.ReplayOps(); ops != nil {
 		for _, op := range ops {
 			runOp(r, op)
